@@ -448,7 +448,7 @@ def get_phase_blocks(
     prev_block = GtfBlock()
     for variant, genotype, phase in zip(variant_table.variants, genotypes, phases):
         stats.add_variants(1)
-        if genotype.is_homozygous():
+        if genotype.is_none() or genotype.is_homozygous():
             continue
         stats.add_heterozygous_variants(1)
         if variant.is_snv():
